@@ -56,6 +56,19 @@ CHECKS.update({
     ),
 })
 
+CHECKS.update({
+    "C09": dict(
+        level="model_checking", ref="5 (C09), 3.3",
+        technique="TLC: Repro.tla (processes x environment orders x instances x thread interleavings; invariant Reproducible; the environment-order variant of the pinned commit must violate it); ReproTrace.tla validates recorded histories (hash seeds, permuted directory enumeration, shared-scanner threads, re-used vs fresh scanners, CLI stdout) with a first-End-binds memo",
+        text="The design model is exhaustive for 2 processes, 3 threads, 3 instances, 4 scans (5.4M states). Recorded histories of the real system (6 hash seeds quick / 26 thorough, half with shuffled os.walk, default and a custom keyword directory full of duplicated and case-variant words, 8 threads on one scanner with switch interval 1e-6, a scanner re-used across 150-1500 scans against fresh ones, CLI output per seed) are checked event by event by TLC: enabling conditions and equality of the result digest for equal (configuration, input, depth, view).",
+    ),
+    "C18": dict(
+        level="model_checking", ref="5 (C18), 3.3",
+        technique="TLC: RegistryMC.tla - the module loop and the file loop of registry.py refine the selection algebra / one-searcher-per-non-empty-file spec for every include/exclude pair over 3 modules (+ an unknown name), every enumeration order, every pair of small keyword files (LF/CRLF/CR, blanks, duplicates); RegistryTrace.tla re-derives what the real build_registry / get_analyzers / get_keywords returned",
+        text="Ground truth for 'marked' is an ast scan of decoders/*.py. TLC recomputes, from the raw bytes of every keyword file (SplitLines is specified in TLA+) and from the include/exclude lists, the exact set of functions and searchers and compares with the registry the implementation built: default registry (also as seen by Multidecoder()), all singleton include/exclude choices, random subsets incl. unknown names and generator arguments, generated directory trees.",
+    ),
+})
+
 NOT_YET = {
     "C01": "check under construction in this session (Session.tla + drivers); not claimed until it runs clean",
     "C02": "check under construction (Layers.tla)",
